@@ -64,6 +64,24 @@ def step (st : St) (ts : List String) : St × String :=
       else fin s "dead"
     | none => (st, "bad-op")
   | ["clear"] => fin s.clear "ok"
+  | ["emp"] => fin s s!"e={if s.isEmpty then 1 else 0} sz={s.size} els={s.data.size}"
+  | ["at", i] =>
+    match parseNat? i with
+    | some i =>
+      match s.elemAt i with
+      | some h => fin s s!"d={h}"
+      | none => fin s "oob"
+    | none => (st, "bad-op")
+  | ["print"] => fin s "ok"
+  | "bulk" :: rest =>
+    match takeCounted rest with
+    | some (xs, []) =>
+      match xs.mapM parseFloatBits? with
+      | some ws =>
+        if ws.any (fun w => w < 0) then fin s "err-neg"
+        else fin s ("bulk " ++ dump (Pdf.ofWeights ws))
+      | none => (st, "bad-op")
+    | _ => (st, "bad-op")
   | _ => (st, "bad-op")
 
 end OmplModel.Driver.PdfDrv
